@@ -25,8 +25,8 @@ from strawberryfields.apps import subgraph as SG
 
 PROP = "C19"
 LEVEL = "proof"
-COQ_TARGETS = ["C19/Similarity.vo", "C19/SimilarityProofs.vo", "C19/Clique.vo", "C19/CliqueProofs.vo",
-               "C19/Subgraph.vo", "C19/SubgraphProofs.vo", "C19/Extra.vo"]
+COQ_TARGETS = ["C19/Similarity.vo", "C19/SimilarityProofs.vo", "C19/SimilarityBounded.vo", "C19/Clique.vo",
+               "C19/CliqueProofs.vo", "C19/Subgraph.vo", "C19/SubgraphProofs.vo", "C19/Extra.vo"]
 COQ_DIRS = ["C19"]
 PROPERTIES_FILE = "Properties/C19.v"
 ALLOWED_AXIOMS = set()
@@ -50,7 +50,20 @@ ASSUMPTIONS = [
     "graphs are networkx.Graph with hashable integer labels; theorems about cliques assume a simple graph (no self-loops)",
     "oracle semantics of np.random.choice: any element can be returned; theorems quantify over all draw lists",
 ]
-MANIFEST_TEXT = "see coq/Properties/C19.v"
+MANIFEST_TEXT = (
+    "proof (_partial). Full, unbounded theorems: orbits soundness (every yielded list is a partition, n >= 1); conversions "
+    "(orbit is a partition of the photon number, permutation invariance, orbit->sample->orbit round trip for every shuffle, "
+    "sample_to_event spec); exact multinomial identity for the integer model of orbit_cardinality; postselect / "
+    "modes_from_counts / to_subgraphs specs; is_clique <-> all pairs adjacent on simple graphs (and on all graphs once "
+    "self-loops are ignored); c_0 / c_1 characterisations; selection rule of grow/swap for every draw; grow = maximal clique "
+    "containing the input; swap = clique of equal size; shrink = clique inside the input; removal/addition rules of the "
+    "documented weight-mode variant and of the source outside weight mode; resize entries have exactly the requested sizes, "
+    "cover the range, are nested; _update_subgraphs_list bounded / only offered entries / denser candidate kept / sorted. "
+    "Bounded (bound in the statement): orbits complete and duplicate-free for n <= 40; cardinalities = brute-force counts "
+    "for <= 6 photons, <= 5 modes. Refuted on the faithful model (known findings): orbits(0), is_clique with self-loops, "
+    "weight-mode node choice of shrink/resize, event_cardinality with fewer modes than photons. Not theorems: unbounded "
+    "completeness of orbits, unbounded count = multinomial, event_to_sample, whole-history statement for search; the "
+    "floating-point arithmetic of orbit_cardinality is not modelled (compared against the exact model instead).")
 
 # ======================================================================================
 # oracle for np.random
@@ -1035,7 +1048,7 @@ def small_ok(g):
 def correspondence(ctx):
     rng = ctx.rng
     B = Batch()
-    scale = ctx.budget(1, 8)
+    scale = ctx.budget(3, 24)
 
     # ---- similarity
     for _ in range(60 * scale):
@@ -1044,7 +1057,7 @@ def correspondence(ctx):
         c = rng.randint(0, 5)
         impl = (list(SI.sample_to_orbit(list(s))), SI.sample_to_event(list(s), c))
         B.add("orbit", "(sample_to_orbit %s, sample_to_event %s %d)" % (L(s), L(s), c), impl, {"sample": s, "maxc": c})
-    for n in range(0, ctx.budget(15, 24)):
+    for n in range(0, ctx.budget(19, 28)):
         impl = [list(o) for o in SI.orbits(n)]
         B.add("orbits", "(orbits %d, orbits_finished %d)" % (n, n), impl, {"photons": n})
     for _ in range(70 * scale):
@@ -1277,7 +1290,7 @@ def correspondence(ctx):
 
 def search(ctx):
     rng = ctx.rng
-    scale = ctx.budget(1, 8)
+    scale = ctx.budget(3, 24)
 
     def go(kind, data, nontrivial=False):
         fails = run_pred(ctx, kind, data)
@@ -1314,7 +1327,7 @@ def search(ctx):
         c = rng.randint(1, 4)
         m = gen_modes(rng, max(k, 1)) if rng.random() < 0.75 else rng.randint(1, max(1, k))
         go("event_card", {"photons": k, "maxc": c, "modes": m}, m > 22)
-    for n in range(0, ctx.budget(19, 31)):
+    for n in range(0, ctx.budget(23, 35)):
         go("orbits", {"photons": n})
     for _ in range(6 * scale):
         k, m = rng.randint(0, 6), rng.randint(1, 5)
